@@ -221,4 +221,46 @@ theorem garble_input_wires (H : Hash L) (c : Circuit) (r : L) (inl : Nat → L)
   rw [get_range_map' _ _ _ (by omega)]
   simp [hi]
 
+
+/-- Garbling a concatenation = garbling the first part, then the second from
+the resulting wire store AND the resulting tweak counter. -/
+theorem garbleGates_append (H : Hash L) (r : L) (gs1 gs2 : List Gate) :
+    ∀ (ws : Store (WireL L)) (id : Nat),
+      garbleGates H r (gs1 ++ gs2) ws id =
+        ((garbleGates H r gs2 (garbleGates H r gs1 ws id).1 (garbleGates H r gs1 ws id).2.1).1,
+         (garbleGates H r gs2 (garbleGates H r gs1 ws id).1 (garbleGates H r gs1 ws id).2.1).2.1,
+         (garbleGates H r gs1 ws id).2.2 ++
+           (garbleGates H r gs2 (garbleGates H r gs1 ws id).1 (garbleGates H r gs1 ws id).2.1).2.2) := by
+  induction gs1 with
+  | nil => intro ws id; rfl
+  | cons g gs ih =>
+    intro ws id
+    rw [List.cons_append, garbleGates_cons, ih, garbleGates_cons]
+    rfl
+
+/-- Streaming mode garbles a list of instruction circuits one after the other
+on one global wire store.  `persistent = true`: the tweak counter runs over
+the whole stream (the code after fix 956e0fd); `false`: it restarts at 0 for
+every instruction (the pinned tree). -/
+def streamGarble (H : Hash L) (r : L) (persistent : Bool) :
+    List (List Gate) → Store (WireL L) → Nat → Store (WireL L) × Nat × List (List L)
+  | [], ws, id => (ws, id, [])
+  | step :: steps, ws, id =>
+    let (ws1, id1, rows) := garbleGates H r step ws (if persistent then id else 0)
+    let (ws2, id2, rest) := streamGarble H r persistent steps ws1 id1
+    (ws2, id2, rows ++ rest)
+
+/-- With a persistent counter, streaming the instructions one by one is
+exactly whole-circuit garbling of their concatenation: every theorem about
+`garbleGates` (C01, C04) transfers to streaming mode. -/
+theorem streamGarble_persistent (H : Hash L) (r : L) (steps : List (List Gate)) :
+    ∀ (ws : Store (WireL L)) (id : Nat),
+      streamGarble H r true steps ws id = garbleGates H r steps.flatten ws id := by
+  induction steps with
+  | nil => intro ws id; rfl
+  | cons step steps ih =>
+    intro ws id
+    simp only [streamGarble, List.flatten_cons, if_true]
+    rw [garbleGates_append, ih]
+
 end Mpc
